@@ -106,13 +106,9 @@ type c19Scenario struct {
 // goroutine; a handle with addresses in two released blocks was decremented twice after a CAS
 // retry.  TestVerifC19RegressSharedHandleCache keeps the reproducer.
 
-// c19SigStaleHandleCache: ReleaseIPs with more than two addresses lists all handles up front and
-// gives decrementHandle that (by then possibly stale) copy.  If the handle gained its entry for
-// the block after the list was taken (a concurrent assign to the same handle), decrementBlock
-// fails on the stale copy ("isn't linked to handle") and decrementHandle returns the error - it
-// only re-reads the handle after a CAS conflict, not after this - so the address is released but
-// the handle keeps counting it.  No fault needed.
-const c19SigStaleHandleCache = "c19-releaseips-stale-handle-cache-decrement-not-retried"
+// Finding c19-releaseips-stale-handle-cache-decrement-not-retried (fixed in the tree, 9daa333):
+// decrementHandle gave up when decrementBlock failed on the stale handle copy listed up front by
+// ReleaseIPs.  TestVerifC19RegressStaleHandleCache keeps the reproducer.
 
 func c19BlockOf(addr string) string {
 	a := netip.MustParseAddr(addr)
@@ -410,34 +406,6 @@ func (s *c19Scenario) checkHandles(when string, final bool) {
 			}
 		}
 	}
-	if ev.Known(c19SigStaleHandleCache) {
-		// Known finding: tolerate an over-count on a handle for which a ReleaseIPs that used the
-		// handle cache (> 2 addresses) overlapped an assign to the same handle.
-		for _, r := range s.r.ops {
-			if r.Kind != c19ReleaseIPs || len(r.Rel) <= 2 {
-				continue
-			}
-			rEnd := r.endStep
-			if !r.finished {
-				rEnd = s.r.step
-			}
-			for _, a := range s.r.ops {
-				if (a.Kind != c19AutoAssign && a.Kind != c19AssignIP) || a.Handle == nil || !r.involved[*a.Handle] {
-					continue
-				}
-				aEnd := a.endStep
-				if !a.finished {
-					aEnd = s.r.step
-				}
-				if a.startStep <= rEnd && r.startStep <= aEnd {
-					if !tainted[*a.Handle] {
-						s.knownHits[c19SigStaleHandleCache]++
-					}
-					tainted[*a.Handle] = true
-				}
-			}
-		}
-	}
 	ids := map[string]bool{}
 	for h := range counts {
 		ids[h] = true
@@ -571,9 +539,6 @@ func c19Run(t *rapid.T, rec *ev.Recorder, mix [c19NumKinds]int, fw c19FaultWeigh
 	s.drain()
 
 	// Evidence.
-	if s.knownHits[c19SigStaleHandleCache] > 0 {
-		rec.Excluded(c19SigStaleHandleCache)
-	}
 	tr := s.r.sched.Trace()
 	conflicts := 0
 	blockClients := map[string]map[int]bool{}
@@ -856,9 +821,9 @@ func TestVerifC19RegressAssignIPConflict(t *testing.T) {
 	}
 }
 
-// TestVerifC19ConfirmStaleHandleCache is the deterministic reproducer of the known finding
-// c19SigStaleHandleCache.  It FAILS while the defect is present.  No faults.
-func TestVerifC19ConfirmStaleHandleCache(t *testing.T) {
+// TestVerifC19RegressStaleHandleCache is the deterministic reproducer of the (fixed) finding
+// c19-releaseips-stale-handle-cache-decrement-not-retried, kept as a regression test.  No faults.
+func TestVerifC19RegressStaleHandleCache(t *testing.T) {
 	ev.Quiet()
 	w := c19NewWorld([]v3.IPPool{c19Pool("pool4", c19PoolV4, 30), c19Pool("pool6", c19PoolV6, 126)}, nil)
 	w.addNode("n1", nil)
